@@ -4,6 +4,7 @@ mod e1;
 mod e2;
 mod e3;
 mod e4;
+mod e5;
 mod http;
 mod model;
 mod props;
